@@ -237,7 +237,15 @@ pub fn run(ctx: &Ctx) -> i32 {
                 let all_q: Vec<String> = crate::mon::c11::QAS.iter().map(|s| s.to_string()).collect();
                 std::fs::create_dir_all(format!("{}/cfgdir", base)).unwrap();
                 // the toml's own path entry points at the analysed tree (absolute), so that it is harmless whether or not --path is given
-                std::fs::write(format!("{}/cfgdir/ok.toml", base), toml_text(Some(&tree), &all_o, &all_v, &all_q)).unwrap();
+                // the toml's own path entry: absolute, or relative to the working directory (the same directory either way)
+                let rel_from_cwd = match cwd_kind {
+                    0 => format!("../{}", tree_rel),
+                    1 => ".".to_string(),
+                    2 => "..".to_string(),
+                    _ => "./contracts".to_string(),
+                };
+                let tp = if rng.chance(1, 2) { tree.clone() } else { rel_from_cwd };
+                std::fs::write(format!("{}/cfgdir/ok.toml", base), toml_text(Some(&tp), &all_o, &all_v, &all_q)).unwrap();
                 args.push("--toml".into());
                 args.push(if rng.chance(1, 2) { format!("{}/cfgdir/ok.toml", base) } else { "../cfgdir/ok.toml".to_string() });
                 if cwd_kind == 0 || cwd_kind == 3 {
@@ -335,6 +343,24 @@ pub fn run(ctx: &Ctx) -> i32 {
                     }
                     (None, _) => acc.violation("report-not-written-in-cwd", witness(json!({}))),
                     _ => acc.inconclusive("reference run in a clean directory failed"),
+                }
+            }
+            // 2b. the report against an expectation that does not come from the binary: every eligible file analysed on its own
+            if !failing && code == Some(0) {
+                let mut exp = vec![];
+                if expected_findings(&tree, &all_dets(), &mut exp).is_ok() {
+                    if let Some(r) = &now_report {
+                        let table = crate::report::section_table();
+                        match parse_report_triples(&String::from_utf8_lossy(r), &table) {
+                            Ok(got) => {
+                                acc.eval();
+                                if got != triples(&exp) {
+                                    acc.violation("report-differs-from-per-file-analysis", witness(json!({"expected_entries": triples(&exp).len(), "listed_entries": got.len()})));
+                                }
+                            }
+                            Err(e) => acc.violation("report-grammar", witness(json!({"parse_error": e}))),
+                        }
+                    }
                 }
             }
             // 3. syscalls
